@@ -259,7 +259,7 @@ vnacal_new_parameter_t *_vnacal_new_get_parameter(const char *function,
     /*
      * If the frequency vector has been given, check the frequency range.
      */
-    if (vnp->vn_frequencies_valid) {
+    if (vnp->vn_frequencies_valid && vnp->vn_frequencies > 0) {
 	if (check_single_frequency_range(function, vnp,
 		    vnp->vn_frequency_vector[0],
 		    vnp->vn_frequency_vector[vnp->vn_frequencies - 1],
